@@ -477,7 +477,11 @@ def r4(prog, ev, rep, helper):
                 ka, xa = view_of(leaf.a[1]); kb, xb = view_of(leaf.a[2])
                 if not (ka == kb == "num" and xa | xb == {a0, a1} and xa != xb):
                     problems.append("`==` does not compare the numeric views of the two operands: `%s`" % leaf)
-        rep.check(not problems, "C04-R4", "%s|numeric-eq" % shared.rk(prog, ev, helper), prog.loc_of(helper), "== of the two numeric views", "; ".join(problems))
+        if problems and all("is not an `==`" in p_ for p_ in problems) and _loopy(t):
+            rep.unrecognised("C04-R4", "%s|numeric-eq" % shared.rk(prog, ev, helper), prog.loc_of(helper),
+                             "the helper has early exits inside loops whose values could not be separated from the numeric branch: " + "; ".join(problems))
+        else:
+            rep.check(not problems, "C04-R4", "%s|numeric-eq" % shared.rk(prog, ev, helper), prog.loc_of(helper), "== of the two numeric views", "; ".join(problems))
     if not found:
         rep.unrecognised("C04-R4", "%s|numeric-eq" % shared.rk(prog, ev, helper), prog.loc_of(helper),
                          "no branch on `both operands have a numeric view (as_f64/as_i64)` found in the value-equality helper: "
@@ -645,6 +649,11 @@ def partial_eq_discharged(prog, ev):
     return DISCHARGED[id(prog)]
 
 
+def _loopy(t):
+    """does the term come out of loops / mutation (phi of loop-carried values), i.e. is it beyond the quantifier readers?"""
+    return any(x.k in ("phi", "loopvar", "mutated", "opaque") for x in subterms(t))
+
+
 def r6(prog, ev, rep, helper, eq_fn):
     rep.rule("C04-R6", "containers are compared structurally: arrays element-wise and objects member-wise through the value-equality "
              "helper itself (so numbers inside them compare by mathematical value); the data type's own `==` (T: PartialEq) decides "
@@ -713,8 +722,12 @@ def r6(prog, ev, rep, helper, eq_fn):
                 why = "lengths are not compared: `%s`" % ln
             elif not okall:
                 why = "elements are not compared pairwise by the helper: `%s`" % str(rest)[:160]
-        rep.check(good, "C04-R6", "%s|arrays" % shared.rk(prog, ev, helper), where, "same length and element-wise equal (by the helper)",
-                  "arrays are not compared as RFC 9535 2.3.5.2.2 requires (same length, element-wise equal): %s" % why)
+        if not good and _loopy(body):
+            rep.unrecognised("C04-R6", "%s|arrays" % shared.rk(prog, ev, helper), where, "the array branch of the value-equality helper is written with "
+                             "loops / early exits that could not be read as `same length && all pairs equal`: %s" % why)
+        else:
+            rep.check(good, "C04-R6", "%s|arrays" % shared.rk(prog, ev, helper), where, "same length and element-wise equal (by the helper)",
+                      "arrays are not compared as RFC 9535 2.3.5.2.2 requires (same length, element-wise equal): %s" % why)
     if "as_object" in branches:
         m, body = branches["as_object"]
         A = Tm("proj", (m.a[0].a[0], "Option::Some.0")); B = Tm("proj", (m.a[0].a[1], "Option::Some.0"))
@@ -741,8 +754,12 @@ def r6(prog, ev, rep, helper, eq_fn):
                 why = "member counts are not compared: `%s`" % ln
             elif not okq:
                 why = "members are not matched by name and compared by the helper: `%s`" % str(rest)[:160]
-        rep.check(good, "C04-R6", "%s|objects" % shared.rk(prog, ev, helper), where, "same member count, every member has an equal member of the same name (by the helper)",
-                  "objects are not compared as RFC 9535 2.3.5.2.2 requires (same names, each with equal values): %s" % why)
+        if not good and _loopy(body):
+            rep.unrecognised("C04-R6", "%s|objects" % shared.rk(prog, ev, helper), where, "the object branch of the value-equality helper is written with "
+                             "loops / early exits that could not be read as `same count && every member has an equal namesake`: %s" % why)
+        else:
+            rep.check(good, "C04-R6", "%s|objects" % shared.rk(prog, ev, helper), where, "same member count, every member has an equal member of the same name (by the helper)",
+                      "objects are not compared as RFC 9535 2.3.5.2.2 requires (same names, each with equal values): %s" % why)
     n = 0
     for s_ in ev.sited(helper):
         if s_["kind"] != "call" or not re.search(r"PartialEq.*::(eq|ne)$", s_["term"].a[0]):
